@@ -1152,9 +1152,15 @@ func (it *Interp) mux(c *Node, a, b Value) Value {
 		if y, ok := b.(Ptr); ok && x == y {
 			return x
 		}
+		if _, ok := b.(NilV); ok && it.PreferNonNilSlice {
+			return x // (pointer, error) results looked at only under the premise "no error"
+		}
 	case NilV:
 		if _, ok := b.(NilV); ok {
 			return x
+		}
+		if y, ok := b.(Ptr); ok && it.PreferNonNilSlice {
+			return y
 		}
 	case StrV:
 		if y, ok := b.(StrV); ok && x.Known && y.Known && x.S == y.S {
@@ -2427,6 +2433,41 @@ func (it *Interp) call(st *state, x *ssa.Call, c *ssa.CallCommon, depth int) Val
 			return it.copyBuiltin(st, args, x)
 		case "append":
 			return it.appendBuiltin(st, args, x)
+		case "min", "max":
+			// integers: fold pairwise with the ordering comparison
+			acc, ok := args[0].(BV)
+			for _, a := range args[1:] {
+				nb, okb := a.(BV)
+				if !ok || !okb || nb.W != acc.W {
+					ok = false
+					break
+				}
+				var lt *Node // acc < nb
+				if acc.Signed {
+					fa, fb := acc, nb
+					fa.B = append([]*Node{}, acc.B...)
+					fb.B = append([]*Node{}, nb.B...)
+					fa.B[acc.W-1] = it.T.Not(acc.B[acc.W-1])
+					fb.B[nb.W-1] = it.T.Not(nb.B[nb.W-1])
+					lt = it.ult(fa, fb)
+				} else {
+					lt = it.ult(acc, nb)
+				}
+				pick := lt // min: keep acc when acc < nb
+				if b.Name() == "max" {
+					pick = it.T.Not(lt)
+				}
+				m, okm := it.mux(pick, acc, nb).(BV)
+				if !okm {
+					ok = false
+					break
+				}
+				m.Signed = acc.Signed
+				acc = m
+			}
+			if ok {
+				return acc
+			}
 		}
 		it.unsup("builtin %s", b.Name())
 		return OpaqueV{"builtin"}
@@ -2672,6 +2713,15 @@ func (it *Interp) appendBuiltin(st *state, args []Value, x *ssa.Call) Value {
 			return base
 		}
 		if s.Len < 0 {
+			if !base.Nil && base.Len == 0 && s.Obj != nil {
+				// append(empty, src...) with src of unknown extent: a fresh slice holding exactly src's
+				// elements — the same effect as make + copy of the whole of src
+				o := it.NewObj(fmt.Sprintf("append%d", it.nobj+1), false)
+				o.Havoc = true
+				st.mem[o] = map[string]Value{}
+				it.Effects = append(it.Effects, fmt.Sprintf("copy dst=%s[0:] dstlen=-1 src=%s%s[%d:] srclen=-1", o.Name, s.Obj.Name, s.Path, s.Lo))
+				return SliceV{Obj: o, Len: -1}
+			}
 			it.unsup("append of a slice of unknown length")
 			return OpaqueV{"append"}
 		}
